@@ -468,6 +468,21 @@ fn c05_f64(rng: &mut Rng, out: &mut Out) {
         }
     } }
 }
+fn c05_assemble(rng: &mut Rng, out: &mut Out) {
+    for n in 1..8usize { case();
+        let mut t = Tridiagonal::<Q>::new(n); let mut d: M = vec![vec![Q::int(0); n]; n];
+        let mut order: Vec<(usize, usize)> = vec![]; for i in 0..n { order.push((i, i)); if i + 1 < n { order.push((i, i + 1)); order.push((i + 1, i)); } }
+        for k in (1..order.len()).rev() { let s2 = rng.below(k as u64 + 1) as usize; order.swap(k, s2); }
+        let mut hist = vec![];
+        for (i, j) in order { let v = rng.q_nz(); t[(i, j)] = v; d[i][j] = v; hist.push(format!("t[({},{})]={:?}", i, j, v.n));
+            if t[(i, j)] != v { report(out, "C05 an element written through the index operator reads back at the same position", hist.join("; "), format!("{:?}", t[(i, j)]), format!("{:?}", v)); break; } }
+        let ctx = format!("n={} {}", n, hist.join("; "));
+        match quiet(|| t.convert()) { Ok(c) => if from_matrix(&c) != d { report(out, "C05 a matrix assembled element by element converts to its dense twin", ctx.clone(), mq(&from_matrix(&c)), mq(&d)); }, Err(e) => report(out, "C05 convert panicked", ctx.clone(), e, mq(&d)) }
+        let x: Vec<Q> = (0..n).map(|_| rng.q()).collect();
+        match quiet(|| &t * &Vector::create(x.clone())) { Ok(p) => if vq(&p) != matvec(&d, &x) { report(out, "C05 a matrix assembled element by element multiplies like its dense twin", format!("{} x={}", ctx, qs(&x)), qs(&vq(&p)), qs(&matvec(&d, &x))); }, Err(e) => report(out, "C05 product panicked", ctx.clone(), e, "a product".into()) }
+        for i in 0..n { for j in 0..n { if (i as i64 - j as i64).abs() <= 1 && t[(i, j)] != d[i][j] { report(out, "C05 element access agrees with the dense twin after element-wise assembly", ctx.clone(), format!("({},{})={:?}", i, j, t[(i, j)]), format!("{:?}", d[i][j])); } } }
+    }
+}
 fn c05_ctor(out: &mut Out) {
     for n in 1..6usize { case();
         let mut rs = Tridiagonal::<Q>::new(1); rs.resize(n);
@@ -1100,6 +1115,19 @@ fn c14(_rng: &mut Rng, out: &mut Out) {
           if !((z.abs() - m).abs() <= 1e-14 * m) || !((t.real - m).abs() <= 1e-14 * m && t.imag == 0.0) { report(out, "C14 |z| through the inherent method and through the Signed trait method is the modulus (as x + 0i)", ctx.clone(), format!("abs()={} Signed::abs=({}, {})", z.abs(), t.real, t.imag), format!("{}", m)); }
           let back = Cmplx::polar(z.abs(), z.arg());
           if !cl(back, z) { report(out, "C14 polar(|z|, arg z) == z in every quadrant and on every axis", ctx.clone(), format!("({}, {})", back.real, back.imag), format!("({}, {})", z.real, z.imag)); } }
+        { let inv = one / z;
+          let pairs: Vec<(&'static str, Cmplx, Cmplx)> = vec![
+              ("C14 cot z == 1 / tan z", z.cot(), one / z.tan()), ("C14 sec z == 1 / cos z", z.sec(), one / z.cos()), ("C14 csc z == 1 / sin z", z.csc(), one / z.sin()),
+              ("C14 coth z == 1 / tanh z", z.coth(), one / z.tanh()), ("C14 sech z == 1 / cosh z", z.sech(), one / z.cosh()), ("C14 csch z == 1 / sinh z", z.csch(), one / z.sinh()),
+              ("C14 tan z == sin z / cos z", z.tan(), z.sin() / z.cos()), ("C14 tanh z == sinh z / cosh z", z.tanh(), z.sinh() / z.cosh()),
+              ("C14 acot z == atan(1/z) (the library's convention, odd, in every quadrant)", z.acot(), inv.atan()), ("C14 asec z == acos(1/z)", z.asec(), inv.acos()), ("C14 acsc z == asin(1/z)", z.acsc(), inv.asin()),
+              ("C14 acoth z == atanh(1/z)", z.acoth(), inv.atanh()), ("C14 asech z == acosh(1/z)", z.asech(), inv.acosh()), ("C14 acsch z == asinh(1/z)", z.acsch(), inv.asinh()),
+              ("C14 tan(atan z) == z", z.atan().tan(), z), ("C14 tanh(atanh z) == z", z.atanh().tanh(), z), ("C14 sinh(asinh z) == z", z.asinh().sinh(), z)];
+          for (name, got, exp) in pairs { if got.real.is_finite() && got.imag.is_finite() && exp.real.is_finite() && exp.imag.is_finite() && (z - one).abs() > 1e-3 && (z + one).abs() > 1e-3 && (z - Cmplx::new(0.0, 1.0)).abs() > 1e-3 && (z + Cmplx::new(0.0, 1.0)).abs() > 1e-3 {
+              if !((got - exp).abs() <= 1e-7 * (1.0 + got.abs() + exp.abs())) { report(out, name, ctx.clone(), format!("({}, {})", got.real, got.imag), format!("({}, {})", exp.real, exp.imag)); } } }
+          // whole-number real exponents of either sign, and fractional ones: z^x == exp(x ln z), returned at once
+          for xp in [-3.0, -2.0, -1.0, 0.0, 1.0, 2.0, 3.0, -1.5, 0.5, 2.5] { let got = z.powf(xp); let exp = (z.ln() * xp).exp();
+              if !((got - exp).abs() <= 1e-9 * (1.0 + got.abs() + exp.abs())) { report(out, "C14 z.powf(x) == exp(x ln z) for every real exponent |x| <= 3", format!("{} x={}", ctx, xp), format!("({}, {})", got.real, got.imag), format!("({}, {})", exp.real, exp.imag)); } } }
         let chk = |out: &mut Out, name: &'static str, got: Cmplx, exp: Cmplx| if !cl(got, exp) { report(out, name, ctx.clone(), format!("({}, {})", got.real, got.imag), format!("({}, {})", exp.real, exp.imag)); };
         chk(out, "C14 sqrt(z)^2 == z", z.sqrt() * z.sqrt(), z);
         if z.sqrt().real < -1e-12 { report(out, "C14 Re sqrt z >= 0", ctx.clone(), format!("{}", z.sqrt().real), ">= 0".into()); }
@@ -1183,6 +1211,12 @@ fn c15(rng: &mut Rng, out: &mut Out) {
             7 => { let x = rng.int(0, 9); for e in m.iter_mut() { *e = x; } v.assign(x); h.push(format!("assign({})", x)); }
             _ => if rng.below(3) == 0 { m.clear(); v.clear(); h.push("clear".into()); } }
             if v.size() != m.len() || (0..m.len()).any(|i| v[i] != m[i]) { report(out, "C15 vector equals the list model after a sequence of edits", format!("start {:?}; {}", iv, h.join("; ")), format!("{:?}", v), format!("{:?}", m)); break; } }
+    }
+    // resize of a vector that has never allocated (capacity 0), by every constructor of the empty vector
+    for target in [1usize, 2, 5, 33] { case();
+        let makers: Vec<(&'static str, Box<dyn Fn() -> Vector<i64>>)> = vec![("empty()", Box::new(|| Vector::<i64>::empty())), ("new(0, 7)", Box::new(|| Vector::<i64>::new(0, 7))), ("create(vec![])", Box::new(|| Vector::<i64>::create(vec![])))];
+        for (name, mk) in makers.iter() { let mut v = mk(); v.resize(target);
+            if v.size() != target || (0..target).any(|i| v[i] != 0) { report(out, "C15 resize of an empty vector gives that many default elements", format!("{}.resize({})", name, target), format!("size {}", v.size()), format!("{} zeros", target)); } }
     }
     // generated sequences in both directions: start exactly at a, end at b to rounding, strictly monotone towards b, evenly spaced
     for (a, b) in [(1.0f64, 3.0f64), (1.0, 0.0), (0.0, -2.5), (5.0, -5.0), (-1.0, -0.25), (2.0, 1.0e3), (1.0e3, 2.0)] { for n in [2usize, 3, 5, 11, 64] { case();
@@ -1518,6 +1552,24 @@ fn c20(rng: &mut Rng, out: &mut Out) {
         must_panic(out, format!("{} [x -= &y]", what), quiet(|| { let mut t = x.clone(); t -= &y; }));
         must_panic(out, format!("{} [x -= y]", what), quiet(|| { let mut t = x.clone(); t -= y.clone(); }));
     } } } }
+    // operands of equal size are accepted by every size-checked entry point of Vector<f64> (threaded and sequential dot), sizes 0..=6
+    for n in 0..7usize { case();
+        let (va, vb) = (Vec64::create((0..n).map(|i| i as f64 + 1.0).collect()), Vec64::create((0..n).map(|i| 2.0 - i as f64).collect()));
+        match quiet(|| (va.dot_f64(&vb), va.dot(&vb))) { Ok((p, q)) => if p.to_bits() != q.to_bits() { report(out, "C20 dot_f64 and dot agree on conformable operands", format!("size {}", n), format!("{}", p), format!("{}", q)); },
+            Err(e) => report(out, "C20 conformable operands are accepted", format!("Vector({}).dot_f64(Vector({}))", n, n), e, "a value".into()) }
+    }
+    // the range-checked setter of the 2-D mesh writes the node it names and no other (meshes up to 6 x 6, every node)
+    for nx in 1..7usize { for ny in 1..7usize { case();
+        let mut m2 = Mesh2D::<f64>::new(Vector::create((0..nx).map(|i| i as f64).collect()), Vector::create((0..ny).map(|j| 0.5 * j as f64).collect()), 2);
+        let mut model = vec![vec![[0.0f64; 2]; ny]; nx]; let mut bad = false;
+        for i in 0..nx { for j in 0..ny { if bad { break; }
+            let v = [(1 + i * ny + j) as f64, -((1 + i + j * nx) as f64)]; model[i][j] = v;
+            if quiet(std::panic::AssertUnwindSafe(|| m2.set_nodes_vars(i, j, Vector::create(v.to_vec())))).is_err() { report(out, "C20 in-range arguments are accepted", format!("Mesh2D({}x{}).set_nodes_vars({}, {}, ..)", nx, ny, i, j), "panic".into(), "stored".into()); bad = true; break; }
+            for a in 0..nx { for b in 0..ny { let g = m2.get_nodes_vars(a, b); if g[0] != model[a][b][0] || g[1] != model[a][b][1] { if !bad { report(out, "C20 a checked write goes to the element it names and to no other", format!("Mesh2D({}x{}) after set_nodes_vars({}, {}, ..): node ({}, {})", nx, ny, i, j, a, b), format!("({}, {})", g[0], g[1]), format!("({}, {})", model[a][b][0], model[a][b][1])); } bad = true; } } }
+        } }
+        must_panic(out, format!("Mesh2D({}x{}).set_nodes_vars({}, 0, ..)", nx, ny, nx), quiet(std::panic::AssertUnwindSafe(|| m2.set_nodes_vars(nx, 0, Vector::create(vec![0.0, 0.0])))));
+        must_panic(out, format!("Mesh2D({}x{}).set_nodes_vars(0, {}, ..)", nx, ny, ny), quiet(std::panic::AssertUnwindSafe(|| m2.set_nodes_vars(0, ny, Vector::create(vec![0.0, 0.0])))));
+    } }
     // products with the largest square operand (6 x 6): non-conformable partners of every shape, borrowing and consuming
     { let sq = Matrix::<Q>::new(6, 6, Q::int(1));
       for a in 1..7usize { for b in 1..7usize { case();
@@ -1589,7 +1641,7 @@ fn main() {
         if big && matches!(pid.as_str(), "C13" | "C14" | "C16" | "C17") { continue; }      // no size parameter in these oracles
         match pid.as_str() {
         "C01" => { c01(rng, out); if !big { c01_extreme(rng, out) } }, "C02" => c02(rng, out), "C03" => { c03(rng, out); if !big { c03_empty(out) } }, "C04" => { c04(rng, out); c04_f64(rng, out) },
-        "C05" => { c05(rng, out); c05_f64(rng, out); if !big { c05_ctor(out) } }, "C06" => c06(rng, out), "C07" => { c07(rng, out); c07_insert(rng, out); c07_sizes(rng, out) }, "C08" => c08(rng, out),
+        "C05" => { c05(rng, out); c05_f64(rng, out); if !big { c05_ctor(out); c05_assemble(rng, out) } }, "C06" => c06(rng, out), "C07" => { c07(rng, out); c07_insert(rng, out); c07_sizes(rng, out) }, "C08" => c08(rng, out),
         "C09" => c09(rng, out), "C10" => c10(rng, out), "C11" => c11(rng, out), "C12" => c12(rng, out),
         "C13" => c13(rng, out), "C14" => c14(rng, out), "C15" => c15(rng, out), "C16" => c16(rng, out),
         "C17" => c17(rng, out), "C18" => c18(rng, out), "C19" => { c19(rng, out); c19_file(rng, out) }, "C20" => c20(rng, out),
